@@ -92,10 +92,12 @@ func openStore(kind string, enc bool) (*store, error) {
 	return s, nil
 }
 
-func (s *store) open() error {
+func (s *store) open() error { return s.openWith(nil) }
+
+func (s *store) openWith(opts *bolt.Options) error {
 	var st common.TokenStorage
 	if s.kind == "bolt" {
-		db, err := bolt.Open(s.path, 0o600, nil)
+		db, err := bolt.Open(s.path, 0o600, opts)
 		if err != nil {
 			return err
 		}
